@@ -13,7 +13,7 @@ Fixpoint supported (t : node) : bool :=
   match t with
   | NChar _ _ _ | NAnchor _ | NNothing | NEmpty | NBump => true
   | NCharLoop _ _ _ _ m n => (0 <=? m) && (m <=? n) && (n <=? INF)
-  | NMulti _ _ => true
+  | NMulti _ _ | NRef _ _ => true
   | NConcat _ l => (fix go (l : list node) : bool := match l with [] => true | x :: l' => supported x && go l' end) l
   | NAlternate _ l =>
       match l with [] => false | _ => true end &&
@@ -23,7 +23,6 @@ Fixpoint supported (t : node) : bool :=
   | NLoop _ _ m n r => (0 <=? m) && (n <=? INF) && supported r
   | NBackRefCond _ _ yes no => supported yes && match no with Some x => supported x | None => true end
   | NExprCond _ c yes no => supported c && supported yes && match no with Some x => supported x | None => true end
-  | _ => false
   end.
 
 Definition supported_list (l : list node) : bool :=
